@@ -153,6 +153,12 @@ def _prog_c(case, evolved):
               "base": {"e": "lit", "v": 3}, "body": {"e": "add", "a": {"e": "x"}, "b": {"e": "lit", "v": 1}}}
     caller_body = {"e": "add", "a": {"e": "call", "f": "g"}, "b": {"e": "lit", "v": 10}}
     defs = [callee]
+    if case.get("deps"):
+        # the callee itself depends on two more memento functions (its dependency closure has several members)
+        leaves = [{"k": "fn", "mod": "a", "name": "l%d" % i, "memento": True, "version": None, "cluster": cl, "pdef": None, "kwdef": None,
+                   "base": {"e": "lit", "v": i}, "body": {"e": "x"}} for i in (1, 2)]
+        callee["body"]["a"] = {"e": "add", "a": {"e": "x"}, "b": {"e": "add", "a": {"e": "call", "f": "l1"}, "b": {"e": "call", "f": "l2"}}}
+        defs = leaves + [callee]
     if case["evolution"] == "reversion-hash":
         callee["version"] = "r#1:a"     # the version that will vanish contains '#' and ':'
     ev = case["evolution"] if evolved else None
@@ -274,7 +280,7 @@ def execute(case, scratch):
         (["version-has-hash"] if "#" in (case.get("version") or "") else []) + \
         (["cluster-has-sep"] if any(c in (case.get("cluster") or "") for c in ":#") else []) + \
         (["default-cluster"] if case.get("cluster") is None else []) + \
-        (["evolution:%s:%s" % (case["evolution"], case["delivery"])] if part == "C" else [])
+        (["evolution:%s:%s" % (case["evolution"], case["delivery"])] if part == "C" else []) + (["callee-with-own-dependencies"] if case.get("deps") else [])
     out.nt_key = case
     return out
 
@@ -309,5 +315,6 @@ def run_shard(ctx):
     core.hyp_search(b, ex, stats, max_examples=3000 if thorough else 60, seed=core.hash64(ctx.seed, ID, "B", ctx.shard), findings=ctx.findings, deadline_s=dl())
     # part C is a small finite matrix: enumerate it (5 clusters x 9 evolutions x 2 deliveries)
     cs = [{"part": "C", "cluster": cl, "evolution": ev, "delivery": dv} for cl in (None, "c", "a:b", "x#y", "c1@p") for ev in ("none", "edit", "reversion", "reversion-hash", "rename", "remove", "recluster", "unwrap", "rebind-object") for dv in ("restart", "inproc")]
+    cs += [{"part": "C", "cluster": cl, "evolution": ev, "delivery": dv, "deps": 2} for cl in (None, "c") for ev in ("none", "edit", "reversion", "rename", "remove", "recluster", "unwrap") for dv in ("restart", "inproc")]
     core.enum_search(cs, ex, stats, findings=ctx.findings, shard=ctx.shard, nshards=ctx.nshards, deadline_s=dl())
     return stats
